@@ -312,6 +312,7 @@ func ReachLabels(fn *ssa.Function) []string {
 type CallSiteArg struct {
 	Pos  string
 	Type string // concrete type converted to the interface parameter, or "" when the argument is not a constant conversion
+	Param string // name of the enclosing function's own parameter when the argument is that parameter, unchanged
 	Desc string
 }
 
@@ -344,6 +345,9 @@ func (P *Program) CallArgTypes(fnName, calleeName string, arg int) ([]CallSiteAr
 				site := CallSiteArg{Pos: P.Fset.Position(c.Pos()).String(), Desc: a.String()}
 				if mi, ok := a.(*ssa.MakeInterface); ok {
 					site.Type = mi.X.Type().String()
+				}
+				if pa, ok := a.(*ssa.Parameter); ok {
+					site.Param = pa.Name()
 				}
 				out = append(out, site)
 			}
